@@ -117,6 +117,15 @@ def forget_composeinfo(desc, version):
     """what the documented mapping keeps of a description when it goes through format `version`"""
     vt = tuple(int(x) for x in version.split("."))
     comp, rel, bp, tops = copy.deepcopy(desc)
+    if vt < (0, 3):
+        # before 0.3 date, type and respin exist only inside the id (documented suffixes; a missing respin is 0)
+        import re
+        m = re.search(r"(\d{8})(?:\.(n|nightly|t|test|ci|d))?(?:\.(\d+))?$", comp["id"])
+        if m:
+            comp["date"] = m.group(1)
+            comp["type"] = {None: "production", "n": "nightly", "nightly": "nightly", "t": "test", "test": "test", "ci": "ci",
+                            "d": "development"}[m.group(2)]
+            comp["respin"] = int(m.group(3) or 0)
     if vt <= (0, 3):
         rel["internal"] = False
 
